@@ -424,9 +424,17 @@ def check_C03(ck):
         nproj = len(sc)
         # the same through CurveAffine::mul, with scalars at limb boundaries (a zero limb below a non-zero one, single high limbs)
         sc += [(1 << 64, 3), ((1 << 128) + 5, 1 << 64), (1 << 192, (1 << 192) + (1 << 64)), (rng.randrange(R), (rng.randrange(1 << 64) << 128) | 7), (R, 1), (5, R + 1)]
+        # limb-structured scalars: single limbs all ones / just above and below the limbs of r (a comparison or carry that
+        # looks at limbs in the wrong order or one limb only shows here), through both routes
+        rl = [(R >> (64 * i)) & ((1 << 64) - 1) for i in range(4)]
+        limbsc = [(1 << 64) - 1, rl[0] + 1, rl[0] - 1, ((1 << 64) - 1) << 64, (rl[3] << 192) | ((1 << 192) - 1) if ((rl[3] << 192) | ((1 << 192) - 1)) < (1 << 256) else 1,
+                  (rl[3] << 192), ((rl[3] - 1) << 192) | ((1 << 192) - 1), (1 << 128) - 1, rl[0] | (1 << 64), ((1 << 64) - 1) | (rl[1] << 64) | (rl[2] << 128) | (rl[3] << 192)]
+        limbpairs = [(limbsc[i], limbsc[(i + 3) % len(limbsc)]) for i in range(len(limbsc))]
+        nlimb0 = len(sc)
+        sc += limbpairs
         mc = []
         for i_, (a, b) in enumerate(sc):
-            if i_ < nproj:
+            if i_ < nproj or (i_ >= nlimb0 and (i_ - nlimb0) % 2 == 0):
                 mc.append(("impl-mul", "g1 mul %s %x" % (g1.J(P), a)))
                 mc.append(("impl-mul", "g2 mul %s %x" % (g2.J(Qp), b)))
             else:
@@ -961,6 +969,15 @@ def check_C07(ck):
                     dcases.append(("deser-route-chunked/%s/%s/%s" % (cl, kind, "c" if comp else "u"), "%s deser_%s_ch %s %d %x" % (tag, kind, bs, fl, 7)))
         for c, (impl, _) in zip(dcases, ck.run(dcases)):
             ck.expect(impl.startswith("ERR"), "invariant:decoders-hand-out-members-only", c[1][:120], impl[:80], "ERR:*", "a point outside the subgroup / off the curve is rejected by every decoding route")
+        # multi-scalar multiplication with the identity among the inputs (first, last, alone in its bucket), every small window
+        Sa, Sb = g.sub_pt(rng), g.sub_pt(rng)
+        for ps in ([None, Sa], [Sa, None], [None, Sa, Sb], [None, None, Sa], [None]):
+            ks = [rng.randrange(1, 1 << 255) for _ in ps]
+            pl = ";".join(g.A(P_) for P_ in ps); kl = ";".join("%x" % k_ for k_ in ks)
+            outs.append(("sum_of_products/with-identity", "%s sop %s %s" % (tag, pl, kl)))
+            outs.append(("sum_of_products_precomp/with-identity", "%s soppre %s %s" % (tag, pl, kl)))
+            for w_ in ((1, 2, 3, 5, 7) if not thorough else range(1, 9)):
+                outs.append(("pippenger/with-identity/w%d" % w_, "%s pip %x %s %s" % (tag, w_, pl, kl)))
         # map2_to_curve on input pairs whose SSWU images coincide or cancel (the sum needs the doubling / inverse case)
         us7 = [K.zero, K.one] + [K.rand(rng) for _ in range(4 if not thorough else 16)]
         if tag == "g1":
